@@ -54,6 +54,16 @@ CHECKS = {
              "the closed form and for independence of every bias.",
         note="Cases with an activation input delta inside (1e-7, 1e-5) are skipped and counted (switch band); max-pooling is covered by "
              "the completeness law of C04, not by this oracle."),
+    "C06": dict(
+        technique="property-based testing (Hypothesis): metamorphic relations across batch sizes, example subsets and permutations, repeated calls",
+        category="exploration", design_ref="DESIGN.md §3 C06",
+        text="For generated architectures (incl. max-pooling and an extra per-example model argument), references given as tensors or "
+             "generated by dinucleotide_shuffle/shuffle with an integer seed, and processed/raw/hypothetical outputs, the call that puts "
+             "all example-reference pairs into one batch is compared with calls at generated batch sizes (1, n_shuffles-1, n_shuffles+1, "
+             "sizes not dividing n*n_shuffles), on a subset and on a permutation of the examples: attributions allclose(1e-9, 1e-12), "
+             "returned references exactly equal; a repeated identical call must be bit-identical.",
+        note="Exact equality across different batchings is deliberately not demanded (last-bit differences of BLAS kernels were "
+             "observed at design time); references=function only with an integer random_state."),
     "C08": dict(
         technique="property-based testing (Hypothesis): differential against explicit per-index loops, with an echo func that encodes the (X, args) it received and predict on an exact-integer model",
         category="exploration", design_ref="DESIGN.md §3 C08",
